@@ -62,11 +62,12 @@ def smallNumber : Rat := 2748779 / 274877906944
 
 /-! ## relaxation and subset schedule -/
 
-/-- OSSPSReconstruction.cxx:372-373
-    `relaxation_parameter / (1 + relaxation_gamma * (subiteration_num / num_subsets))` — `int / int`, and the counter is the
-    1-based `subiteration_num` itself (not `subiteration_num - 1`). -/
+/-- OSSPSReconstruction.cxx:372-374
+    `relaxation_parameter / (1 + relaxation_gamma * ((subiteration_num - 1) / num_subsets))` — `int / int` of the 1-based
+    `subiteration_num` minus one: the 0-based number of the full iteration the sub-iteration belongs to
+    (repaired code, fix C08-1; before the fix the code divided `subiteration_num` itself). -/
 def relaxation (alpha gamma : Rat) (k numSubsets : Int) : Rat :=
-  alpha / (1 + gamma * ((k.tdiv numSubsets : Int) : Rat))
+  alpha / (1 + gamma * (((k - 1).tdiv numSubsets : Int) : Rat))
 
 /-- `IterativeReconstruction::get_subset_num`, `randomise_subset_order == false` (IterativeReconstruction.cxx:638) -/
 def subsetNum (k startSubset numSubsets : Int) : Int := (k + startSubset - 1).tmod numSubsets
@@ -145,9 +146,9 @@ def workDenominator (obj : Objective) (x denom : Img) : Img :=
   let work := if !obj.priorIsZero then List.zipWith (fun c d => c * 2 + d) (obj.curv x) denom else denom
   thresholdMinToSmallPositiveValue work smallNumber
 
-/-- l.285-289: at the first sub-iteration of a run the non-identifiable voxels are set to 0 -/
-def currentImage (obj : Objective) (first : Bool) (image : Img) : Img :=
-  if first then obj.fillNonIdent image else image
+/-- l.285-289: at the start of EVERY sub-iteration the non-identifiable voxels are set to 0
+    (repaired code, fix C08-2; before the fix only at the first sub-iteration of a run) -/
+def currentImage (obj : Objective) (image : Img) : Img := obj.fillNonIdent image
 
 /-- the image the numerator is divided by (l.323-369): freshly computed when the penalty term has to be recomputed or at
     the first sub-iteration of a run, otherwise `*precomputed_denominator_ptr` -/
@@ -174,7 +175,7 @@ def additiveUpdate (p : Params) (obj : Objective) (k : Int) (x D : Img) : Img :=
     l.394 `current_image_estimate += *numerator_ptr`, l.405 `threshold_upper_lower(…, 0.F, static_cast<float>(upper_bound))`. -/
 def updateEstimate (p : Params) (obj : Objective) (start : Int) (s : State) : State :=
   let first := s.k == start
-  let x := currentImage obj first s.image
+  let x := currentImage obj s.image
   let D := denomUsed obj first x s.denom
   { image := (List.zipWith (fun a b => a + b) x (additiveUpdate p obj s.k x D)).map (thresholdUpperLower 0 p.upperBound),
     denom := denomStored obj first x s.denom,
